@@ -18,7 +18,7 @@ ORDINARY = (ValueError, TypeError, IndexError, KeyError, NotImplementedError, Ru
 # ------------------------------------------------------------------ generation (parent process)
 _WEIGHTS = [("cartesian", 2), ("argcomb", 2), ("field", 2), ("withfield", 2), ("withfield_b", 3), ("rt", 5), ("ufunc", 3), ("addmasked", 4), ("filter", 3), ("num", 3),
             ("flatten", 5), ("localindex", 5), ("pad", 8), ("fillnone", 10), ("isnone", 8), ("mask", 7), ("singletons", 3), ("firsts", 3),
-            ("comb", 3), ("reduce", 6), ("sort", 4), ("concatperm", 3), ("bcperm", 3), ("slice", 8), ("sortbyarg", 3), ("like", 3), ("nantonum", 2), ("concat0", 2), ("concat2", 5), ("concat1", 3), ("zip", 3), ("unflatten", 3),
+            ("comb", 3), ("reduce", 6), ("sort", 4), ("concatperm", 3), ("bcperm", 3), ("slice", 8), ("sortbyarg", 3), ("concat3", 4), ("like", 3), ("nantonum", 2), ("concat0", 2), ("concat2", 5), ("concat1", 3), ("zip", 3), ("unflatten", 3),
             ("same", 2), ("maysame", 2)]
 _OPS = [name for name, w in _WEIGHTS for _ in range(w)]
 
@@ -88,6 +88,16 @@ def _rand_op(rng, focus=None):
         return "same", {"o": rng.choice(["packed", "copy", "astype_f8", "layout", "getall"])}
     if kind == "maysame":
         return "maysame", {"o": rng.choice(["to_regular", "from_regular"])}
+    if kind == "concat3":
+        # [x, other, x]: three operands in ONE mergemany; the middle one is, half of the time, fixed-size lists over a content
+        # that is longer than length * size (unreachable tail)
+        if rng.random() < 0.5:
+            size = rng.choice([2, 3])
+            n = rng.choice([k for k in range(2, 10) if k % size])
+            other = {"c": "Regular", "size": size, "zl": 0, "x": trmod._rand_leaf(rng, n)}
+        else:
+            other, _n = trmod._rand_layout(rng, rng.randint(0, 2), allow_union=False)
+        return "concat3", {"other": other}
     if kind == "concat2":
         other, _n = trmod._rand_layout(rng, rng.randint(0, 2), allow_union=False)
         return "concat2", {"other": other}
@@ -188,6 +198,8 @@ def _call(ak, np, op, a, A):
         return f(A, axis=a["axis"], ascending=bool(a["asc"]), stable=bool(a["stable"]))
     if op == "concat2":
         return ak.concatenate([A, a["_B"]], axis=0)
+    if op == "concat3":
+        return ak.concatenate([A, a["_B"], A], axis=0)
     if op == "concatperm":
         keys = ak.fields(A)
         return ak.concatenate([A, A[keys[::-1]]], axis=0)
@@ -280,7 +292,7 @@ def h_chain(case, pick, st, stats):
             continue                                 # needs named records with two or more fields at the top
         if op == "rt_arrow" and "union" in ty:
             continue                                 # Arrow unions: pyarrow's union API drifted away from this version (not judged, as in C16's own phases)
-        if op == "concat2":
+        if op in ("concat2", "concat3"):
             try:
                 B = ak.Array(ext._box(_fix(json.loads(json.dumps(a.pop("other"))))))
                 if not ak.is_valid(B):
